@@ -18,7 +18,7 @@ EXPLANATION = ("to_thread.run_sync: the dispatch to the worker and the wait for 
                "its unpacking agree position by position; the thread runs the function in the caller's copied context, captures every "
                "exception, publishes the scope for check_cancelled around the call only, and reports (future, result, exception) to a "
                "callback that sets exactly one of them on a non-cancelled future; from_thread.run/run_sync resolve their concurrent future on "
-               "every path and return its result; the public wrappers forward their arguments.")
+               "every path and return its result; the public wrappers forward their arguments; only WorkerThread.stop queues the shutdown sentinel and it takes the worker out of the idle deque on every returning path (a stopped worker is never handed work).")
 NOT_DECIDED = ("Real thread timing (the race between the report callback and a cancellation of the caller), pruning of idle workers, "
                "the number of OS threads, uvloop.")
 
@@ -477,9 +477,46 @@ def check(ctx):
     # ---- R14-i the default limiter outlives root tasks: the run-variable store is never dropped wholesale
     run_var_store_intact(ctx, "R14-i")
 
+    # ---- R14-j a stopped worker is never offered for reuse: whoever queues the shutdown sentinel for a worker also takes it out of the idle deque
+    stopped_worker_not_idle(ctx, "R14-j")
+
     # ---- R14-h "never more running calls than the limiter's total": every grant of a token is capacity-guarded (shared with C10/R10-a)
     from .c10 import grants_capacity_guarded
     grants_capacity_guarded(ctx, "R14-h")
+
+
+def stopped_worker_not_idle(ctx, rule):
+    """`run_sync_in_worker_thread` reuses whatever worker it pops from the idle deque without looking at it, and a worker that got the
+    shutdown sentinel (`queue.put_nowait(None)`) leaves its loop and never runs another item: the function queued to it is never called
+    and the caller waits forever. So every function that queues the sentinel for `self` must, on every path that returns, have
+    attempted to take `self` out of `idle_workers` (or have found it absent)."""
+    st_f = ctx.fn("WorkerThread.stop", A)
+    rs = ctx.fn("AsyncIOBackend.run_sync_in_worker_thread", A)
+    sent = ctx.sites(st_f, "self.queue.put_nowait(None)")
+    if not ctx.need(rule, st_f, "shutdown sentinel `self.queue.put_nowait(None)` in WorkerThread.stop", len(sent), 1):
+        return
+    # sentinel writers anywhere else in the backend (must be none: stop() is the only way to end a worker)
+    others = []
+    for f in ctx.repo.funcs_in(A):
+        if f is st_f or f.qual.startswith("WorkerThread.stop"):
+            continue
+        for pat in ("$W.queue.put_nowait(None)", "$W.queue.put(None)"):
+            for s, env in ctx.sites(f, pat):
+                if "queue" in norm(s) and ("worker" in norm(s).lower() or f.cls == "WorkerThread"):
+                    others.append((f, s))
+    ctx.ob(rule, others[0][0] if others else st_f, "only WorkerThread.stop queues the shutdown sentinel", not others, node=others[0][1] if others else None,
+           detail="" if not others else f"`{norm(others[0][1])}` in {others[0][0].qual} ends a worker without the bookkeeping of stop()", by=("writer table of the sentinel",))
+    absent = F("self in self.idle_workers")
+
+    def step(st, e, c):
+        return 1                       # attempted removal counts even when remove() raises ValueError (the worker was not idle)
+
+    def at_exit(kind, st, facts):
+        if kind.split(":")[0] == "return" and not st and (absent[0], False) not in facts:
+            return "`self.idle_workers.remove(self)` is not attempted on a path to return: the stopped worker stays in the idle deque and the next run_sync() hands it work that never runs"
+        return None
+
+    ctx.paths(rule, st_f, [("rm", ["self.idle_workers.remove(self)"])], step, 0, at_exit, instance="stop() takes the worker out of the idle deque", broad=True)
 
 
 def loop_entry_points(ctx, RULE):
